@@ -8,7 +8,7 @@
    every fuel for which the model returns a result (fuel only bounds the
    traversal of replacement nodes, which is not structural). *)
 From PyGql Require Import Lang.VisitorModel Proofs.VisitorProofs Proofs.VisitorTermination
-                          Proofs.VisitorLocality Lang.VisitorEq Run.C18run Proofs.VisitorEqProofs.
+                          Proofs.VisitorLocality Proofs.VisitorNoCrash Lang.VisitorEq Run.C18run Proofs.VisitorEqProofs.
 
 (* The model refines the declarative visit: the tree it returns is the
    top-down edit [apply] under the composed decision function of the chain, and
@@ -240,6 +240,63 @@ Theorem C18_member_replace : forall X (inj : X -> node) (proj : node -> option X
   exists x', proj m = Some x' /\ l' = pre ++ x' :: post.
 Proof. exact member_replace. Qed.
 Print Assumptions C18_member_replace.
+
+(* ---- when an editing visit cannot fail (Proofs/VisitorNoCrash.v) ----
+   The model answers Crash in three situations: a replacement of another class
+   (Crash 1), a required child deleted (Crash 2: the selection set of an
+   operation / fragment / inline fragment, the type of a variable definition /
+   field definition / input value definition / operation type definition, the
+   value of an argument / object field -- [required_children]), a class
+   without table entry (Crash 3: Name).  If every visitor returns replacements
+   of the class of the node it was given ([class_pres]: same [kind_of], same
+   wrapper) and the chain never deletes a node standing in a required position,
+   then for every root that is not a Name and every fuel the visit is Ok or out
+   of fuel -- whatever else the visitors delete, skip or replace, at any depth --
+   and ASTVisitor.visit's own class dispatch passes. *)
+Theorem C18_no_crash : forall vs,
+  class_pres vs ->
+  (forall p c, In c (required_children p) -> compose (acts_of vs) c <> Delete) ->
+  forall fuel n, kind_of n <> KName ->
+    (visit fuel vs n = OutOfFuel \/ exists tr r, visit fuel vs n = Ok (tr, r)) /\
+    (visit_top fuel vs n = visit fuel vs n).
+Proof. exact visit_never_crashes. Qed.
+Print Assumptions C18_no_crash.
+
+(* ... and with replacements that do not grow (C18_terminates) fuel =
+   node_size n suffices: the Ok premise of C18_refines / _balanced / _once /
+   _deep / _delete / _skip / _replace is satisfiable for editing visitors. *)
+Theorem C18_edit_total : forall vs,
+  class_pres vs ->
+  (forall p c, In c (required_children p) -> compose (acts_of vs) c <> Delete) ->
+  (forall v x m, In v vs -> v_act v x = Replace m -> node_size m <= node_size x) ->
+  forall fuel n, kind_of n <> KName -> node_size n <= fuel ->
+  exists tr r, visit fuel vs n = Ok (tr, r).
+Proof. exact visit_ok. Qed.
+Print Assumptions C18_edit_total.
+
+(* utilities/ast_transforms.py: RemoveFieldAliasesVisitor and
+   CamelCaseToSnakeCaseVisitor (dispatching or not) meet the three conditions:
+   on every node of every document they return Ok with fuel = node_size.
+   (SnakeCaseToCamelCaseVisitor raises IndexError on a name made of underscores
+   only -- a finding of the correspondence, modelled by act_snake_to_camel.) *)
+Theorem C18_transforms_total : forall (d : bool) act,
+  act = act_remove_aliases \/ act = act_camel_to_snake ->
+  forall fuel n, kind_of n <> KName -> node_size n <= fuel ->
+  exists tr r, visit fuel [Visitor d act] n = Ok (tr, r).
+Proof. exact transform_total. Qed.
+Print Assumptions C18_transforms_total.
+
+(* both conditions are needed: deleting the value of an argument is Crash 2,
+   replacing it by a node of another class is Crash 1 *)
+Theorem C18_crash_conditions_needed :
+  (let arg := NArg (Arg (nc_name "a") (VInt (str_of_string "1") None) None) in
+   visit 5 [Visitor false (fun n => match n with NVal _ => Delete | _ => Keep end)] arg = Crash 2) /\
+  (let arg := NArg (Arg (nc_name "a") (VInt (str_of_string "1") None) None) in
+   visit 5 [Visitor false (fun n => match n with
+                                    | NVal _ => Replace (NType (TNamed (nc_name "T") None))
+                                    | _ => Keep end)] arg = Crash 1).
+Proof. split; [exact required_delete_crashes|exact other_class_crashes]. Qed.
+Print Assumptions C18_crash_conditions_needed.
 
 (* ---- the oracle of the correspondence harness ----
    The boolean comparison used to compare the implementation's recorded trace
